@@ -60,7 +60,7 @@ var vpreds = []vpred{
 }
 
 func c14(r *R) {
-	keys := []string{"a", "b", "c", "d"}
+	keys := []string{"", "a", "b", "c"} // "" is the zero value of the key type: a legitimate key
 	vals := []int{0, 1, 2}
 	maxE := 4
 	var maps []map[string]int
@@ -372,7 +372,7 @@ func c14Collections(r *R, maps []map[string]int) {
 			if _, hasC := m["c"]; hasC {
 				continue
 			}
-			if _, hasD := m["d"]; hasD {
+			if _, hasZ := m[""]; hasZ && len(m) == 2 && m["a"] == 0 {
 				continue
 			}
 			fam = append(fam, m)
